@@ -386,7 +386,23 @@ fn main() {
     let mut found_fns: Vec<(FoundFn, &FnSpec)> = vec![];
     for fs in u.fns.iter() {
         let file = files.get(&fs.src).unwrap_or_else(|| die(&format!("unknown source alias {}", fs.src)));
-        let ff = find_fn(file, &fs.path).unwrap_or_else(|| die(&format!("lost anchor: fn {}::{} not found", fs.src, fs.path)));
+        let mut ff = find_fn(file, &fs.path).unwrap_or_else(|| die(&format!("lost anchor: fn {}::{} not found", fs.src, fs.path)));
+        if let Some(k) = fs.closure {
+            // lambda lifting: the k-th closure literal of the function (source order) becomes a function of its own; the
+            // overlay supplies the signature (the captured variables become parameters)
+            let cls = collect_closures(&ff.block);
+            let cl = cls.get(k).unwrap_or_else(|| die(&format!("lost anchor: closure #{} of {}::{}", k, fs.src, fs.path)));
+            let sig_txt = fs.sig.as_ref().unwrap_or_else(|| die("a lifted closure needs `sig`"));
+            let sig: Signature = syn::parse_str(sig_txt).unwrap_or_else(|e| die(&format!("bad sig `{}`: {}", sig_txt, e)));
+            use syn::spanned::Spanned;
+            ff.line_start = cl.span().start().line;
+            ff.line_end = cl.span().end().line;
+            ff.block = match &*cl.body {
+                Expr::Block(b) => b.block.clone(),
+                other => Block { brace_token: Default::default(), stmts: vec![Stmt::Expr(other.clone(), None)] },
+            };
+            ff.sig = sig;
+        }
         let name = ff.sig.ident.to_string();
         if ff.sig.asyncness.is_some() {
             t.internal_async.insert(name.clone());
@@ -439,6 +455,13 @@ fn main() {
     for (ff, fs) in found_fns.into_iter() {
         let mut block = ff.block.clone();
         CfgStrip.visit_block_mut(&mut block);
+        if !fs.closurecalls.is_empty() {
+            let mut rep = ReplaceClosures { k: 0, with: &fs.closurecalls, hit: 0 };
+            rep.visit_block_mut(&mut block);
+            if rep.hit != fs.closurecalls.len() {
+                die(&format!("lost anchor: closurecall of {}::{} matched {} of {} closures", fs.src, fs.path, rep.hit, fs.closurecalls.len()));
+            }
+        }
 
         // pool path
         let mut pool: Option<Expr> = None;
@@ -457,7 +480,21 @@ fn main() {
         if let Some(p) = &fs.poolpath {
             pool = if p == "none" { None } else { Some(syn::parse_str(p).unwrap_or_else(|_| die("bad poolpath expr"))) };
         }
-        let is_async = ff.sig.asyncness.is_some();
+        let is_async = ff.sig.asyncness.is_some() || fs.ctl;
+        // locals named by the overlay: by name, else by the ordinal of their `let` (robust against a rename)
+        let local_ren: Vec<(String, String)> = {
+            let lets = collect_lets(&ff.block);
+            let mut ren = vec![];
+            for (name, ord) in fs.locals.iter() {
+                if !lets.contains(name) {
+                    match lets.get(*ord) {
+                        Some(actual) => ren.push((name.clone(), actual.clone())),
+                        None => die(&format!("lost anchor: local `{}` (let #{}) of {}::{}", name, ord, fs.src, fs.path)),
+                    }
+                }
+            }
+            ren
+        };
 
         let mut el = Elab {
             u: &u,
@@ -470,6 +507,8 @@ fn main() {
             counters: BTreeMap::new(),
             loop_ctr: 0,
             cur_loop: 0,
+            unwinding: false,
+            local_ren: local_ren.clone(),
             used_loops: Default::default(),
             all_loop_headers: elab::collect_loop_headers(&ff.block),
             brk_ctr: 0,
@@ -650,6 +689,42 @@ fn main() {
                 all_notes.push(format!("{}::{}: loop contract #{} matched no loop (skipped)", fs.src, fs.path, k));
             }
         }
+        if std::env::var("VX_LIST_LETS").is_ok() {
+            // developer aid: which `let`-bound locals does the overlay of this function mention?
+            let lets = collect_lets(&ff.block);
+            let mut texts: Vec<String> = vec![];
+            for c in fs.requires.iter().chain(fs.ensures.iter()) { texts.push(c.text.clone()); }
+            for g in fs.before.values().chain(fs.after.values()).flatten().chain(fs.entry.iter()) { texts.push(g.text.clone()); }
+            for l in fs.loops.values() {
+                for c in l.invariant.iter().chain(l.invariant_except_break.iter()).chain(l.ensures.iter()) { texts.push(c.text.clone()); }
+                for g in l.body.iter().chain(l.init.iter()) { texts.push(g.text.clone()); }
+                if let Some(d) = &l.decreases { texts.push(d.clone()); }
+            }
+            for k in fs.before.keys().chain(fs.after.keys()) { texts.push(k.clone()); }
+            let all = texts.join("\n");
+            // identifiers not preceded by `.` (field accesses and method names do not count)
+            let mut words: BTreeSet<String> = BTreeSet::new();
+            {
+                let cs: Vec<char> = all.chars().collect();
+                let mut i = 0;
+                while i < cs.len() {
+                    if cs[i].is_alphabetic() || cs[i] == '_' {
+                        let st = i;
+                        while i < cs.len() && (cs[i].is_alphanumeric() || cs[i] == '_') { i += 1; }
+                        if !(st > 0 && cs[st - 1] == '.') { words.insert(cs[st..i].iter().collect()); }
+                    } else { i += 1; }
+                }
+            }
+            for (i, n) in lets.iter().enumerate() {
+                if words.contains(n) && !fs.locals.iter().any(|(a, _)| a == n) {
+                    eprintln!("LETS {}::{} closure={:?}: local {} {}", fs.src, fs.path, fs.closure, n, i);
+                }
+            }
+        }
+        for (o, a) in local_ren.iter() {
+            all_notes.push(format!("{}::{}: local `{}` is called `{}` in the source now", fs.src, fs.path, o, a));
+        }
+        emit::LOCAL_RENAMES.with(|r| *r.borrow_mut() = local_ren.clone());
         let keys: Vec<String> = el.counters.iter().map(|(k, n)| format!("{}x{}", k, n)).collect();
         let poolstr = el.pool.as_ref().map(|p| elab::expr_to_string(p).replace(" . ", ".")).unwrap_or_default();
         em.add_fn(&ff, fs, sig, body, keys, poolstr);
@@ -688,4 +763,62 @@ fn registry_path(rel: &str) -> String {
         }
     }
     format!("{}/{}", base, rel)
+}
+
+
+/// closure literals of a block in source order (outer before inner)
+fn collect_closures(b: &Block) -> Vec<ExprClosure> {
+    struct V(Vec<ExprClosure>);
+    impl<'ast> syn::visit::Visit<'ast> for V {
+        fn visit_expr_closure(&mut self, c: &'ast ExprClosure) {
+            self.0.push(c.clone());
+            syn::visit::visit_expr_closure(self, c);
+        }
+    }
+    let mut v = V(vec![]);
+    syn::visit::Visit::visit_block(&mut v, b);
+    v.0
+}
+
+/// `closurecall K EXPR`: the K-th closure literal is replaced by `__vx_raw!(EXPR)` (EXPR is emitted as written)
+struct ReplaceClosures<'a> {
+    k: usize,
+    with: &'a [(usize, String)],
+    hit: usize,
+}
+impl<'a> VisitMut for ReplaceClosures<'a> {
+    fn visit_expr_mut(&mut self, e: &mut Expr) {
+        if let Expr::Closure(_) = e {
+            let idx = self.k;
+            self.k += 1;
+            if let Some((_, txt)) = self.with.iter().find(|(i, _)| *i == idx) {
+                let raw: Expr = syn::parse_str(txt).unwrap_or_else(|_| die(&format!("bad closurecall expression `{}`", txt)));
+                *e = parse_quote!(__vx_raw!(#raw));
+                self.hit += 1;
+                return;
+            }
+        }
+        syn::visit_mut::visit_expr_mut(self, e);
+    }
+}
+
+
+/// names bound by `let [mut] IDENT [: T] = ..` in a block, in source order
+fn collect_lets(b: &Block) -> Vec<String> {
+    struct V(Vec<String>);
+    impl<'ast> syn::visit::Visit<'ast> for V {
+        fn visit_local(&mut self, l: &'ast Local) {
+            let p = match &l.pat {
+                Pat::Type(pt) => &*pt.pat,
+                other => other,
+            };
+            if let Pat::Ident(pi) = p {
+                self.0.push(pi.ident.to_string());
+            }
+            syn::visit::visit_local(self, l);
+        }
+    }
+    let mut v = V(vec![]);
+    syn::visit::Visit::visit_block(&mut v, b);
+    v.0
 }
